@@ -33,11 +33,12 @@ impl Dependencies for Block {
 
 impl Compile for Block {
     fn compile(&self, state: &CompilationState) -> Result<Vec<super::CompiledItem>> {
-        let compiled_body: Vec<super::CompiledItem> = self
-            .0
-            .iter()
-            .flat_map(|x| x.compile(state).unwrap())
-            .collect();
+        let mut compiled_body: Vec<super::CompiledItem> = vec![];
+
+        for declaration in self.0.iter() {
+            // propagate an error of the code-generation phase instead of crashing on it
+            compiled_body.append(&mut declaration.compile(state)?);
+        }
 
         Ok(compiled_body)
     }
